@@ -533,6 +533,9 @@ func (m *Model) applyTx(ws *MState, ti *TxInfo, r *abci.ResponseDeliverTx, h int
 		if ra := ws.Accounts[hx(tx.To)]; ra != nil && ra.Code != "" {
 			isEVM = true
 		}
+		if m.Ref != nil && m.Ref.HasCode(hx(tx.To)) {
+			isEVM = true // contracts created by contracts are contracts too
+		}
 	}
 	if isEVM {
 		m.applyEVMTx(ws, ti, r, h, P, price, sumFee, out, idx)
